@@ -109,6 +109,65 @@ Proof.
   repeat (constructor; [cbn; intuition discriminate|]). constructor.
 Qed.
 
+(* ---------------------------------------------------------------- roundtrip of a unit's entries *)
+
+(* The bytes of the entries, after the reference fix-ups, read back — with the spec-level DIE reader
+   Spec.decode_die and the unit's own abbreviation table — as the tree that was written:
+     * `dmatch`: same tags and nesting, every entry at the position `write` emitted it, each attribute list
+       = the DW_AT_sibling the writer adds (pointing at the end of the entry's subtree) followed by the entry's
+       attributes in order, each with the form chosen by `form` and the value `av_final` (= the value set, with
+       string/line/range/location attributes carrying the offset their table assigned);
+     * every UnitRef value + unit offset is the position of the entry it was meant to reference, i.e. the `off`
+       of that entry's decoded SDie (offsets_exact says that is `cs_entries st` of its id);
+     * nothing outside the placeholders changed (`sec' = pre ++ ... ++ post`).
+   Remaining distance to gimli's own reader: C02/C03 (its DIE and attribute readers equal Spec.decode_die /
+   form_decode) — here that half is the harness oracle (read-back through gimli::read on every case). *)
+Theorem roundtrip : forall (dbg : bool) (cx : wcx) (root : die) (st0 st : cst) (ops : list wop)
+    (pre post sec' : list byte) (f : eid -> list byte) (fuel : nat) (rest : list byte),
+  calc dbg (wc_enc cx) root st0 = Ok st ->
+  wc_codes cx = cs_codes st ->
+  write_die dbg cx root (cs_off st0) = Ok ops ->
+  NoDup (die_ids root) -> die_expr_ok root -> die_decodable root ->
+  cs_off st0 + ops_len ops < 2 ^ 64 ->
+  (forall j y, nth_error (cs_entries st0) j = Some y -> y = 0) ->
+  UnitWr.blen pre = cs_off st0 -> wc_unit_off cx <= cs_off st0 ->
+  (forall id b, ref_value dbg (wc_be cx) (wc_unit cx) (wc_unit_off cx) (cs_entries st) (wsz (wc_enc cx)) id = Some b -> f id = b) ->
+  (forall id, UnitWr.blen (f id) = wsz (wc_enc cx)) ->
+  patch_unit_refs dbg (wc_be cx) (wc_unit cx) (wc_unit_off cx) (cs_entries st) (wsz (wc_enc cx))
+                  (ops_unit_refs (cs_off st0) ops) (pre ++ ops_bytes ops ++ post) = Ok sec' ->
+  ops_len ops <= N.of_nat fuel ->
+  exists sd,
+    sec' = pre ++ ops_resolved f ops ++ post /\
+    decode_die fuel (wc_enc cx) (wc_be cx) (cs_abbrevs st) (cs_off st0) (ops_resolved f ops ++ rest) = Some (sd, rest) /\
+    dmatch cx f root (cs_off st0) (cs_off st0 + ops_len ops) sd /\
+    (forall id w', In (WUnitRef id w') ops ->
+       exists p, In (id_idx id, p) (ops_marks (cs_off st0) ops) /\
+                 nth_error (cs_entries st) (id_idx id) = Some p /\
+                 fixed_num (wc_be cx) (f id) = p - wc_unit_off cx).
+Proof. exact roundtrip_lemma. Qed.
+
+(* the example tree, patched and decoded: root at 11 with DW_AT_sibling -> 33 (end), a forward reference to the
+   entry at 25 and, inside it, a backward reference to the entry at 22 *)
+Example roundtrip_ex :
+  match calc true ex_enc ex_root ex_st0 with
+  | Ok st =>
+      let cx := mkWcx ex_enc false 0 0 (cs_entries st) (cs_codes st) None [] [] [] [] in
+      match write_die true cx ex_root 11 with
+      | Ok ops =>
+          let f := fun id => match ref_value true false 0 0 (cs_entries st) 4 id with Some b => b | None => zeros 4 end in
+          (exists sec', patch_unit_refs true false 0 0 (cs_entries st) 4 (ops_unit_refs 11 ops)
+                          (repeat x00 11 ++ ops_bytes ops ++ []) = Ok sec') /\
+          decode_die 30 ex_enc false (cs_abbrevs st) 11 (ops_resolved f ops ++ []) =
+            Some (SDie 11 17 [(1, 19, RU 33); (3, 8, RB [x61]); (73, 19, RU 25)]
+                    [SDie 22 36 [(11, 15, RU 300)] [];
+                     SDie 25 46 [(49, 19, RU 22)] [];
+                     SDie 30 36 [(11, 15, RU 7)] []], [])
+      | _ => False
+      end
+  | _ => False
+  end.
+Proof. vm_compute. split; [eexists; reflexivity|reflexivity]. Qed.
+
 (* ---------------------------------------------------------------- (3) abbreviation de-duplication *)
 
 (* AbbreviationTable::add returns the 1-based position of the FIRST occurrence of the abbreviation in the
